@@ -102,6 +102,9 @@ pub enum Sibling {
     RenameField(u64, u64),
     /// insert `///` and `//` comments in front of and inside declarations
     AddComments(u64),
+    /// exchange the widths of two scalar fields that have different widths (`a: 8 … b: 16` →
+    /// `a: 16 … b: 8`): another description of exactly the same length under the same name
+    SwapTwoWidths(u64),
 }
 
 /// Identifiers that generated code uses for its own locals / helpers in some backend.
@@ -112,7 +115,8 @@ pub const SUSPICIOUS_IDENTS: [&str; 24] = [
 
 impl Sibling {
     pub fn draw(rng: &mut Rng) -> Sibling {
-        match rng.below(8) {
+        match rng.below(9) {
+            8 => Sibling::SwapTwoWidths(rng.next()),
             0 => Sibling::FlipEndian,
             1 => Sibling::SwapWidths(rng.next()),
             2 => Sibling::AddField(rng.below(8)),
@@ -134,6 +138,7 @@ impl Sibling {
             Sibling::PermuteDecls(x) => serde_json::json!({"kind": "permute_decls", "seed": x.to_string()}),
             Sibling::RenameField(n, k) => serde_json::json!({"kind": "rename_field", "n": n, "k": k}),
             Sibling::AddComments(x) => serde_json::json!({"kind": "add_comments", "seed": x.to_string()}),
+            Sibling::SwapTwoWidths(x) => serde_json::json!({"kind": "swap_two_widths", "seed": x.to_string()}),
         }
     }
     pub fn from_json(v: &Value) -> Option<Sibling> {
@@ -145,12 +150,51 @@ impl Sibling {
             "permute_decls" => Some(Sibling::PermuteDecls(v["seed"].as_str()?.parse().ok()?)),
             "rename_field" => Some(Sibling::RenameField(v["n"].as_u64()?, v["k"].as_u64()?)),
             "add_comments" => Some(Sibling::AddComments(v["seed"].as_str()?.parse().ok()?)),
+            "swap_two_widths" => Some(Sibling::SwapTwoWidths(v["seed"].as_str()?.parse().ok()?)),
             _ => None,
         }
     }
 
     pub fn apply(&self, text: &str) -> String {
         match self {
+            Sibling::SwapTwoWidths(seed) => {
+                // occurrences of `: <digits>` followed by , } or whitespace
+                let b = text.as_bytes();
+                let mut occ: Vec<(usize, usize)> = Vec::new(); // (start, end) of the digits
+                let mut i = 0;
+                while i < b.len() {
+                    if b[i] == b':' {
+                        let mut j = i + 1;
+                        while j < b.len() && b[j] == b' ' {
+                            j += 1;
+                        }
+                        let s0 = j;
+                        while j < b.len() && b[j].is_ascii_digit() {
+                            j += 1;
+                        }
+                        if j > s0 && (j >= b.len() || matches!(b[j], b',' | b' ' | b'\n' | b'}' | b'\r')) {
+                            occ.push((s0, j));
+                        }
+                        i = j.max(i + 1);
+                    } else {
+                        i += 1;
+                    }
+                }
+                if occ.len() < 2 || !text.is_ascii() {
+                    return text.to_string();
+                }
+                let mut rng = Rng::new(*seed);
+                for _ in 0..32 {
+                    let a = occ[rng.below(occ.len() as u64) as usize];
+                    let c = occ[rng.below(occ.len() as u64) as usize];
+                    let (x, y) = if a.0 < c.0 { (a, c) } else { (c, a) };
+                    if x.0 == y.0 || text[x.0..x.1] == text[y.0..y.1] {
+                        continue;
+                    }
+                    return format!("{}{}{}{}{}", &text[..x.0], &text[y.0..y.1], &text[x.1..y.0], &text[x.0..x.1], &text[y.1..]);
+                }
+                text.to_string()
+            }
             Sibling::PermuteDecls(seed) => {
                 let chunks = split_decls(text);
                 if chunks.len() < 3 {
